@@ -1375,7 +1375,7 @@ class Analyzer:
             elif op == "fneg":
                 tag = self._mneg(self.mono_of(st, i.ops[0]))
             elif op == "select":
-                c = self.val(st, i.ops[0])
+                c = self.to_bool(st, self.val(st, i.ops[0]))
                 if isinstance(c, BoolV) and c.tv is not None:
                     tag = self.mono_of(st, i.ops[1] if c.tv else i.ops[2])
             elif op == "call":
@@ -2664,7 +2664,10 @@ class Analyzer:
             return
         slo = math.sqrt(max(lo, 0.0))
         shi = math.sqrt(hi) if not math.isinf(hi) else INF
-        st.env[i.res] = self.fmk(st, a.kind, slo, shi, n2, t)
+        # the root of a non-negative argument has the sign of the argument (zero exactly when the argument is zero; the root of a
+        # positive floating-point number never underflows): keep the sign-equivalent integer form
+        sl = a.slin if (lo >= 0 and not n2) else None
+        st.env[i.res] = self.fmk(st, a.kind, slo, shi, n2, t, None, sl)
 
     def x_fcmp(self, st, i):
         p = next(iter(i.attrs))
